@@ -19,6 +19,7 @@ RULE = (
     "improving the residual, lstsq equality for linear shapes; an online trace checker over fit/_fit/callback events requires that the last _fit of every dependent "
     "function follows the last _fit of each of its conditioners and saw their final parameters; final function values are compared with a fit in topological order. "
     "Non-trivial = at least 3 support points and a shape with >= 2 free parameters; distinct = (shape/chain, bounds kind, constraints, weights, orders, seed)."
+    ' Also: wirings other than chains (a conditioner used for two parameters, two conditioners, a shared conditioner) in every call order; conditioner data exactly on its start curve.'
 )
 ASSUMPTIONS = [
     "documented meaning of weights(x, y): observation weights (the weighted residual is sum w_i r_i^2); a result that is instead optimal for sum (r_i / w_i)^2 "
